@@ -21,7 +21,10 @@ let events_string (l : C11Common.event list) : string =
   let l = Stdlib.List.stable_sort (fun a b -> compare (iz (C11Common.ev_sid a)) (iz (C11Common.ev_sid b))) l in
   String.concat "," (Stdlib.List.map ev_string l)
 
-let run (id : string) (ops : string list) (out : out_channel) =
+type parsed = { pkg : string; v : C11Common.variant; mp : int; mt : int; keep : (BinNums.coq_Z * BinNums.coq_Z) list;
+                decl : bool list; tops : C11TModel.top list; rops : C11RModel.rop list }
+
+let parse (ops : string list) : parsed =
   let pkg = ref "t" and mp = ref 0 and mt = ref 0 in
   let vl = ref true and vs = ref true and vh = ref true and vm = ref true in
   let keep = ref [] and decl = ref [] in
@@ -51,8 +54,16 @@ let run (id : string) (ops : string list) (out : out_channel) =
     | ["fa"] -> tops := C11TModel.TFlushAll :: !tops; rops := C11RModel.RFlushAll :: !rops
     | _ -> failwith ("c11 op: " ^ s)) ops;
   let v = { C11Common.v_lastseen = !vl; C11Common.v_saved = !vs; C11Common.v_hpages = !vh; C11Common.v_limit = !vm } in
-  if !pkg = "t" then begin
-    let tr = C11TModel.trun v (z_of_int !mp) (z_of_int !mt) (Stdlib.List.rev !tops) in
+  { pkg = !pkg; v = v; mp = !mp; mt = !mt; keep = !keep; decl = !decl; tops = Stdlib.List.rev !tops; rops = Stdlib.List.rev !rops }
+
+let rcfg_of (c : parsed) : C11RModel.rcfg =
+  { C11RModel.r_mpc = z_of_int c.mp; C11RModel.r_mt = z_of_int c.mt; C11RModel.r_keep = c.keep; C11RModel.r_decline = c.decl }
+
+let run (id : string) (ops : string list) (out : out_channel) =
+  let c = parse ops in
+  let v = c.v in
+  if c.pkg = "t" then begin
+    let tr = C11TModel.trun v (z_of_int c.mp) (z_of_int c.mt) c.tops in
     let stop = ref false in
     Stdlib.List.iteri (fun i (o : C11TModel.tobs) ->
       if not !stop then begin
@@ -67,9 +78,7 @@ let run (id : string) (ops : string list) (out : out_channel) =
         end
       end) tr
   end else begin
-    let cfg = { C11RModel.r_mpc = z_of_int !mp; C11RModel.r_mt = z_of_int !mt;
-                C11RModel.r_keep = !keep; C11RModel.r_decline = !decl } in
-    let tr = C11RModel.rrun v cfg (Stdlib.List.rev !rops) in
+    let tr = C11RModel.rrun v (rcfg_of c) c.rops in
     let stop = ref false in
     Stdlib.List.iteri (fun i (o : C11RModel.robs) ->
       if not !stop then begin
@@ -87,3 +96,52 @@ let run (id : string) (ops : string list) (out : out_channel) =
   end
 
 let registered = Registry.register "C11" run
+
+(* ---- extraction cross-check inside Coq (see c18.ml): trun / rrun (same variant, limits, KeepFrom and
+   decline scripts) on the case's ops, recomputed by vm_compute, must equal the observation list
+   this extracted runner computed (before its sorting/formatting). *)
+let coq_variant (v : C11Common.variant) =
+  Printf.sprintf "(C11Common.mkVariant %s %s %s %s)" (coq_bool v.C11Common.v_lastseen) (coq_bool v.C11Common.v_saved)
+    (coq_bool v.C11Common.v_hpages) (coq_bool v.C11Common.v_limit)
+let coq_event (e : C11Common.event) = match e with
+  | C11Common.ENew s -> "ENew " ^ coq_z s
+  | C11Common.EData (s, n, by, sk, st, en, seen, saved) ->
+    Printf.sprintf "EData %s %s %s %s %s %s %s %s" (coq_z s) (coq_z n) (coq_z by) (coq_z sk) (coq_bool st) (coq_bool en) (coq_z seen) (coq_z saved)
+  | C11Common.EDone (s, rm) -> Printf.sprintf "EDone %s %s" (coq_z s) (coq_bool rm)
+let coq_top = function
+  | C11TModel.TSeg (k, seq, syn, fin, rst, len, ts) ->
+    Printf.sprintf "TSeg %s %s %s %s %s %s %s" (coq_z k) (coq_z seq) (coq_bool syn) (coq_bool fin) (coq_bool rst) (coq_z len) (coq_z ts)
+  | C11TModel.TFlush (t, ca) -> Printf.sprintf "TFlush %s %s" (coq_z t) (coq_bool ca)
+  | C11TModel.TFlushAll -> "TFlushAll"
+let coq_rop = function
+  | C11RModel.RSeg (k, d, seq, syn, fin, rst, len, ts) ->
+    Printf.sprintf "RSeg %s %s %s %s %s %s %s %s" (coq_z k) (coq_bool d) (coq_z seq) (coq_bool syn) (coq_bool fin) (coq_bool rst) (coq_z len) (coq_z ts)
+  | C11RModel.RFlush (t, tc) -> Printf.sprintf "RFlush %s %s" (coq_z t) (coq_z tc)
+  | C11RModel.RFlushAll -> "RFlushAll"
+let coq_z3 ((a, b), c) = Printf.sprintf "(%s, %s, %s)" (coq_z a) (coq_z b) (coq_z c)
+let to_coq (idx : int) (ops : string list) (out : out_channel) =
+  let c = parse ops in
+  if c.pkg = "t" then begin
+    let tr = C11TModel.trun c.v (z_of_int c.mp) (z_of_int c.mt) c.tops in
+    let ob (o : C11TModel.tobs) =
+      let ou = o.C11TModel.ob_out in
+      Printf.sprintf "mkTObs (mkTO %s %s %s %s) %s %s %s %s" (coq_list coq_event ou.C11TModel.to_ev) (coq_z ou.C11TModel.to_a)
+        (coq_z ou.C11TModel.to_b) (coq_bool ou.C11TModel.to_panic) (coq_z o.C11TModel.ob_used) (coq_z o.C11TModel.ob_live)
+        (coq_z o.C11TModel.ob_free) (coq_list coq_z3 o.C11TModel.ob_pages) in
+    coq_example out idx (Printf.sprintf "trun %s %s %s %s" (coq_variant c.v) (coq_z (z_of_int c.mp)) (coq_z (z_of_int c.mt)) (coq_list coq_top c.tops))
+      ("[" ^ String.concat ";\n     " (Stdlib.List.map ob tr) ^ "]")
+  end else begin
+    let cfg = rcfg_of c in
+    let tr = C11RModel.rrun c.v cfg c.rops in
+    let ob (o : C11RModel.robs) =
+      let ou = o.C11RModel.rb_out in
+      Printf.sprintf "mkRObs (mkRO %s %s %s %s) %s %s %s %s" (coq_list coq_event ou.C11RModel.ro_ev) (coq_z ou.C11RModel.ro_a)
+        (coq_z ou.C11RModel.ro_b) (coq_bool ou.C11RModel.ro_panic) (coq_z o.C11RModel.rb_used) (coq_z o.C11RModel.rb_live)
+        (coq_z o.C11RModel.rb_free)
+        (coq_list (fun ((s, a), b) -> Printf.sprintf "(%s, %s, %s)" (coq_z s) (coq_z3 a) (coq_z3 b)) o.C11RModel.rb_pages) in
+    coq_example out idx
+      (Printf.sprintf "rrun %s (C11RModel.mkCfg %s %s %s %s) %s" (coq_variant c.v) (coq_z cfg.C11RModel.r_mpc) (coq_z cfg.C11RModel.r_mt)
+         (coq_list (coq_pair coq_z coq_z) cfg.C11RModel.r_keep) (coq_list coq_bool cfg.C11RModel.r_decline) (coq_list coq_rop c.rops))
+      ("[" ^ String.concat ";\n     " (Stdlib.List.map ob tr) ^ "]")
+  end
+let registered_coq = Registry.register_coq "C11" ("From GP Require Import Base C11Common C11TModel C11RModel.\n", to_coq)
